@@ -376,6 +376,11 @@ pub fn run(thorough: bool) -> Outcome {
         vec![F::Ping, F::Wu(0, 9, false), F::Settings(vec![(1, 4096)]), F::Headers(1, "mpas".into(), Framing::default())],
         vec![F::Prio(3, true, 0, 100), F::Settings(vec![(4, 100)]), F::Wu(0, 7, false)],
         vec![F::Settings(vec![(2, 0)]), F::Settings(vec![(3, 5)]), F::Wu(0, 70, false), F::Headers(3, "pmsa".into(), Framing { prio: Some((false, 0, 9)), ..Default::default() })],
+        // header blocks continued in CONTINUATION frames, behind and IN FRONT OF the SETTINGS frame: what the extractor keeps
+        // between two calls must include every frame of the block
+        vec![F::Settings(vec![(1, 65536), (3, 1000)]), F::Headers(1, "mpas".into(), Framing { splits: vec![2, 5], ..Default::default() })],
+        vec![F::Headers(1, "mspa".into(), Framing { splits: vec![3], ..Default::default() }), F::Settings(vec![(1, 65536), (3, 1000), (4, 6291456)]), F::Wu(0, 15663105, false)],
+        vec![F::Wu(0, 11, false), F::Headers(3, "pmsa".into(), Framing { splits: vec![0, 4], prio: Some((false, 0, 16)), ..Default::default() }), F::Prio(5, false, 3, 9), F::Settings(vec![(4, 100)])],
     ];
     for frames in &families {
         for preface in [true, false] {
@@ -403,7 +408,7 @@ pub fn run(thorough: bool) -> Outcome {
     let _ = thorough;
     Outcome {
         report: total,
-        rule: "frame sequences from descriptions: SETTINGS lists (<=3 parameters over 11 ids x 6 values, 0 and 12 parameters) x connection/stream WINDOW_UPDATE variants x preface; PRIORITY with all 256 weights x exclusive x stream/dependency, 0..3 frames; 36 pseudo-header orders (incl. a regular header in front of, between and behind the pseudo-headers) x 14 HEADERS framings (END_STREAM, PADDED 0/1/7/255, PRIORITY, PADDED+PRIORITY with pad length <, >, = weight, CONTINUATION splits) x stream ids; surrounding PING/unknown/DATA frames; incremental extractor on every 2- and 3-partition (and the 1-byte partition) of 5 stream families with and without preface; distinct = distinct fingerprint strings / chunk outcomes".into(),
+        rule: "frame sequences from descriptions: SETTINGS lists (<=3 parameters over 11 ids x 6 values, 0 and 12 parameters) x connection/stream WINDOW_UPDATE variants x preface; PRIORITY with all 256 weights x exclusive x stream/dependency, 0..3 frames; 36 pseudo-header orders (incl. a regular header in front of, between and behind the pseudo-headers) x 14 HEADERS framings (END_STREAM, PADDED 0/1/7/255, PRIORITY, PADDED+PRIORITY with pad length <, >, = weight, CONTINUATION splits) x stream ids; surrounding PING/unknown/DATA frames; incremental extractor on every 2- and 3-partition (and the 1-byte partition) of 8 stream families (three with header blocks continued in CONTINUATION frames, two of them in front of the SETTINGS frame) with and without preface; distinct = distinct fingerprint strings / chunk outcomes".into(),
         exhaustive: true,
         bounds: json!({"settings_lists": sl.len(), "chunk_families": families.len()}),
     }
